@@ -761,10 +761,11 @@ class Inliner:
     def _hoist_consumed_gen(self, s: ast.stmt, cls, caller_q) -> Optional[List[ast.stmt]]:
         """`... sorted(gen_helper(a), key=k) ...`  ->  `_sv_genN = list(gen_helper(a)); ... sorted(_sv_genN, key=k) ...`
         (the list form is then expanded like any `x = list(gen_helper(...))`): an eager consumer sees the same items."""
-        if not isinstance(s, (ast.Assign, ast.AnnAssign, ast.Return, ast.Expr, ast.AugAssign)) or getattr(s, "value", None) is None:
+        root = s.exc if isinstance(s, ast.Raise) else getattr(s, "value", None)
+        if not isinstance(s, (ast.Assign, ast.AnnAssign, ast.Return, ast.Expr, ast.AugAssign, ast.Raise)) or root is None:
             return None
         found = None
-        for c in ast.walk(s.value):
+        for c in ast.walk(root):
             if not isinstance(c, ast.Call):
                 continue
             is_cons = isinstance(c.func, ast.Name) and c.func.id in self._GEN_CONSUMERS
@@ -775,7 +776,7 @@ class Inliner:
             if t is None or not t[1].is_gen or not self._inlinable(t[0], t[1], caller_q):
                 continue
             # the plain forms are handled directly
-            if c is s.value and isinstance(c.func, ast.Name) and c.func.id in ("list", "set") and len(c.args) == 1 and not c.keywords:
+            if c is root and isinstance(c.func, ast.Name) and c.func.id in ("list", "set") and len(c.args) == 1 and not c.keywords:
                 continue
             found = c
             break
